@@ -111,7 +111,7 @@ structure CgiReq where
 deriving Repr
 
 def versionName (v : Nat) : Bytes :=
-  ofString (Extracted.httpVersionNames.getD v "")
+  ofString (Extracted.C09.httpVersionNames.getD v "")
 
 /-- REQUEST_URI: target_orig with the strip-request-uri prefix removed when it is
     followed by '/' -/
